@@ -419,6 +419,7 @@ func init() {
 	Properties["C20"] = &PropertySpec{
 		Modules: []string{"bigtable", "storage"},
 		Rules: []Rule{
+			R70(),
 			R60(),
 			Only(R59(), `^g/`, `^f/`),
 			Only(R24(), `content-length`),
